@@ -153,7 +153,7 @@ func (w *World) FnName(f *ssa.Function) string {
 }
 
 func sanitize(s string) string {
-	r := strings.NewReplacer("*", "P", "[", "L", "]", "R", " ", "_", "/", "_", ".", "_", "(", "_", ")", "_", ",", "_", "{", "_", "}", "_", "-", "_", ";", "_")
+	r := strings.NewReplacer("*", "P", "[", "L", "]", "R", " ", "_", "/", "_", ".", "_", "(", "_", ")", "_", ",", "_", "{", "_", "}", "_", "-", "_", ";", "_", ":", "_", "#", "_", "\"", "_", "'", "_", "<", "_", ">", "_", "=", "_", "&", "_", "|", "_", "+", "_", "!", "_", "@", "_")
 	return r.Replace(s)
 }
 
